@@ -190,7 +190,7 @@ Fixpoint atom (rs : list reading) (m : Z) : option Q :=
 
 (* sum / count of f over the minutes lo, lo+1, ..., lo+n-1 *)
 Fixpoint grid_sum (f : Z -> Q) (lo : Z) (n : nat) : Q :=
-  match n with O => 0%Q | S k => (grid_sum f lo k + f (lo + Z.of_nat k)%Z)%Q end.
+  match n with O => 0%Q | S k => Qred (grid_sum f lo k + f (lo + Z.of_nat k)%Z)%Q end.
 Fixpoint grid_count (f : Z -> bool) (lo : Z) (n : nat) : Z :=
   match n with O => 0 | S k => grid_count f lo k + (if f (lo + Z.of_nat k) then 1 else 0) end.
 
@@ -226,15 +226,25 @@ Definition downsample_and_clean (rs : list reading) (bs : list Z) : list (Z * op
 Definition max_days (g : gran) : Z := match g with BillingBimonthly => 70 | _ => 35 end.
 
 (* (index[1:] - index[:-1]).days : whole days of ELAPSED time (floor) *)
-Definition whole_days (a b : Z) : Z := (b - a) / 1440.
+Definition whole_days_elapsed (a b : Z) : Z := (b - a) / 1440.
+
+(* UTC offset (minutes) in force at a stamp: tz-database DATA handed in for the stamps that need it (0 elsewhere) *)
+Definition offset_of (offs : list (Z * Z)) (t : Z) : Z :=
+  match find (fun p => fst p =? t) offs with Some p => snd p | None => 0 end.
+
+(* cal = false: the code as it is.  cal = true: the repaired count (proposed-fixes/C08-1.diff): whole days between the
+   two reads on the LOCAL WALL CLOCK, so that a spring-forward day inside the period does not make it a day short *)
+Definition whole_days (cal : bool) (offs : list (Z * Z)) (a b : Z) : Z :=
+  if cal then ((b + offset_of offs b) - (a + offset_of offs a)) / 1440 else whole_days_elapsed a b.
 Definition valid_len (g : gran) (d : Z) : bool := (25 <=? d) && (d <=? max_days g).
 
 (* data[(filter_ <= max) & (filter_ >= 25)].reindex(data.index): values of off-cycle periods, and of the
    final row (its filter_ is NaN), become NaN; the rows stay *)
-Fixpoint offcycle_filter (g : gran) (rs : list reading) : list reading :=
+Fixpoint offcycle_filter (cal : bool) (offs : list (Z * Z)) (g : gran) (rs : list reading) : list reading :=
   match rs with
   | r :: ((r' :: _) as rest) =>
-      (stamp r, if valid_len g (whole_days (stamp r) (stamp r')) then rval r else None) :: offcycle_filter g rest
+      (stamp r, if valid_len g (whole_days cal offs (stamp r) (stamp r')) then rval r else None)
+      :: offcycle_filter cal offs g rest
   | [r] => [(stamp r, None)]
   | [] => []
   end.
@@ -277,21 +287,21 @@ Definition fold_estimated (rows : list brow) : list reading :=
 Definition all_nan (rs : list reading) : bool := forallb (fun r => negb (is_some (rval r))) rs.
 
 (* clean_billing_data(data, "billing_monthly" | "billing_bimonthly", warnings) without an "estimated" column *)
-Definition clean_billing (g : gran) (rs : list reading) : list reading :=
+Definition clean_billing (cal : bool) (offs : list (Z * Z)) (g : gran) (rs : list reading) : list reading :=
   if all_nan rs then [] else
-  let f := offcycle_filter g rs in
+  let f := offcycle_filter cal offs g rs in
   if all_nan f then [] else f.
 
 (* ... with the column.  None = the code raises (ValueError: an off-cycle row inside data[:-1] leaves a NaN in
    the boolean mask) *)
-Definition clean_billing_est (g : gran) (rows : list brow) : option (list reading) :=
+Definition clean_billing_est (cal : bool) (offs : list (Z * Z)) (g : gran) (rows : list brow) : option (list reading) :=
   let rs := map fst rows in
   if all_nan rs then Some [] else
-  let f := offcycle_filter g rs in
+  let f := offcycle_filter cal offs g rs in
   let flags := map snd rows in
   (* a row of data[:-1] whose period is off-cycle lost its flag *)
   let body_ok :=
-    forallb (fun p => valid_len g (whole_days (fst p) (snd p))) (pairs (map stamp rs)) in
+    forallb (fun p => valid_len g (whole_days cal offs (fst p) (snd p))) (pairs (map stamp rs)) in
   if negb body_ok then None else
   let folded := fold_estimated (combine f flags) in
   if all_nan folded then Some [] else Some folded.
@@ -351,7 +361,7 @@ Fixpoint removelast_rows (l : list drow) : list drow :=
 (* _BillingData._compute_meter_value_df seen per local day, for meters read at local midnight.
    rows = the "observed" column (NaN rows may be thinned out by the harness except the first and the last one,
    which fix start_date / end_date). *)
-Definition billing_class (elec : bool) (inf : inferred) (rows : list reading) (bs : list Z) : class_result :=
+Definition billing_class (cal : bool) (offs : list (Z * Z)) (elec : bool) (inf : inferred) (rows : list reading) (bs : list Z) : class_result :=
   let rs := dropna (zero_to_nan elec rows) in
   match rs with
   | [] => Days (map (fun _ => None) (pairs bs))
@@ -367,7 +377,7 @@ Definition billing_class (elec : bool) (inf : inferred) (rows : list reading) (b
         let end_date := fb + (last_stamp rows - fb) mod 60 in
         (* meter_series[end_date + 1 day] = NaN : 24 elapsed hours, not a calendar day *)
         let rs' := rs ++ [(end_date + 1440, None)] in
-        match clean_billing g rs' with
+        match clean_billing cal offs g rs' with
         | [] => Unsupported
         | cl =>
             let d := map (fun r => (d_lo r, d_val r)) (removelast_rows (as_freq_cum cl bs)) in
